@@ -77,13 +77,18 @@ def medoid_case(draw, max_n=40, max_d=4, min_n=3, starts=("inds", "state", "all"
             "sweeps": draw(st.integers(1, max_sweeps)), "seed": draw(st.integers(0, 2 ** 31 - 1)),
             "g1": draw(st.integers(0, 2 ** 31 - 1)), "g2": draw(st.integers(0, 2 ** 31 - 1)),
             "centers": None, "proposals": None,
-            "container": draw(st.sampled_from(["list", "ndarray"])),
+            "container": draw(st.sampled_from(["list", "ndarray", "pairs"])),
             "state_src": draw(st.sampled_from(["ref", "kcenters", "kmedoids"])),
             "chain": draw(st.lists(st.integers(1, 3), min_size=2, max_size=3))}
     if start != "cold":
         case["centers"] = draw(st.lists(st.integers(0, n - 1), min_size=k, max_size=k, unique=True))
     if drive == "proposals":
         case["proposals"] = draw(st.lists(st.integers(0, n - 1), min_size=k, max_size=k))
+    # trajectory lengths for centers supplied as (trajectory, frame) pairs + X_lengths (container == "pairs")
+    ncut = draw(st.integers(0, min(4, n - 1)))
+    cuts = sorted(draw(st.lists(st.integers(1, n - 1), min_size=ncut, max_size=ncut, unique=True))) if n > 1 else []
+    edges = [0] + cuts + [n]
+    case["pair_lengths"] = [edges[i + 1] - edges[i] for i in range(len(edges) - 1)]
     case["data"] = draw(rc.dataset_sites(shape))
     return case
 
@@ -207,7 +212,17 @@ def start_kwargs(ctx, state=None):
         start = "all"
     kw = {}
     if start in ("inds", "all"):
-        kw["cluster_center_inds"] = list(cidx) if case["container"] == "list" else np.array(cidx, dtype=np.int64)
+        if case["container"] == "pairs" and case.get("pair_lengths") and sum(case["pair_lengths"]) == ctx.n:
+            L = [int(x) for x in case["pair_lengths"]]
+            st_ = np.concatenate([[0], np.cumsum(L)])
+            pairs = []
+            for g in cidx:
+                t = int(np.searchsorted(st_, g, side="right") - 1)
+                pairs.append((t, int(g - st_[t])))
+            kw["cluster_center_inds"] = pairs
+            kw["X_lengths"] = L
+        else:
+            kw["cluster_center_inds"] = np.array(cidx, dtype=np.int64) if case["container"] == "ndarray" else list(cidx)
     if start in ("state", "all"):
         kw["assignments"] = np.array(lab, dtype=np.int64)
         kw["distances"] = np.array(dist, dtype=np.float64)
@@ -345,7 +360,7 @@ def run_sweep_cost_iterations(case):
     for t in (s, s + 1):
         kw = ({"proposals": [int(p) for p in case["proposals"]]} if case["drive"] == "proposals"
               else {"random_state": case["seed"]})
-        container = list(cidx) if case["container"] == "list" else np.array(cidx, dtype=np.int64)
+        container = np.array(cidx, dtype=np.int64) if case["container"] == "ndarray" else list(cidx)
         with rc.pinned_global_rng(case["g1"] if t == s else case["g2"]):
             r = km_mod._kmedoids_iterations(ctx.X, fn, t, container, lab.copy(), dist.copy(), **kw)
         res.append(r)
@@ -583,7 +598,7 @@ def exhaustive_small(tier, shard, nshards):
                             continue
                         yield {"data": {"sites": [[p] for p in pts], "step": 1, "jitter": None, "dtype": "int64",
                                         "layout": "C", "kind": "uniform"},
-                               "metric": rc.METRICS[idx % 3], "entry": "kmedoids", "start": "inds",
+                               "metric": rc.TRUE_METRICS[idx % 3], "entry": "kmedoids", "start": "inds",
                                "drive": "proposals", "k": 2, "sweeps": 3, "seed": 0, "g1": 1, "g2": 2,
                                "centers": list(ctrs), "proposals": list(props), "container": "list",
                                "state_src": "ref", "chain": [1, 1]}
